@@ -801,6 +801,213 @@ def tie_nft(case):
     return t
 
 # ---------------------------------------------------------------------------------------------
+# multiplex_for_tensor_fields: Model/Multiplex.lean (multiplexTensor ∘ nft…)  <->  NaiveFourierTransform / MatrixFourierTransform on tensor fields of any shape
+
+def gen_mux(rng):
+    ndim = int(rng.integers(1, 3))
+    n, m = int(rng.integers(1, 6)), int(rng.integers(1, 6))
+    order = int(rng.integers(1, 4))
+    while True:
+        ts = [int(rng.integers(1, 4)) for _ in range(order)]
+        if int(np.prod(ts)) <= 12:
+            break
+    T = int(np.prod(ts))
+    return {'family': 'tie-mux', 'x': [[dy(rng, -2, 2) for _ in range(n)] for _ in range(ndim)], 'u': [[dy(rng, -3, 3) for _ in range(m)] for _ in range(ndim)],
+            'w_in': [dy_nz(rng, 0.125, 2.0, 3) for _ in range(n)], 'w_out': [dy_nz(rng, 0.125, 2.0, 3) for _ in range(m)], 'tensor': ts,
+            't': int(rng.integers(0, T)), 'j': int(rng.integers(0, n)), 'k': int(rng.integers(0, m)), 'seed': int(rng.integers(0, 2 ** 31))}
+
+
+def tie_mux(case):
+    import hcipy
+    t = Tie()
+    ndim = len(case['x'])
+    n, m = len(case['x'][0]), len(case['u'][0])
+    ts = [int(v) for v in case['tensor']]
+    T = int(np.prod(ts))
+    gi = hcipy.CartesianGrid(hcipy.UnstructuredCoords([np.array(c, dtype='float64') for c in case['x']]), weights=np.array(case['w_in'], dtype='float64'))
+    go = hcipy.CartesianGrid(hcipy.UnstructuredCoords([np.array(c, dtype='float64') for c in case['u']]), weights=np.array(case['w_out'], dtype='float64'))
+    xs = [np.array(c, dtype=LD) for c in case['x']]
+    us = [np.array(c, dtype=LD) for c in case['u']]
+    dot = sum(np.multiply.outer(us[d], xs[d]) for d in range(ndim))      # (m, n)
+    Af = np.exp(-CLD(1j) * dot) * np.array(case['w_in'], dtype=LD)[None, :]                                 # (m, n): the forward sum
+    Ab = (np.exp(CLD(1j) * dot) * np.array(case['w_out'], dtype=LD)[:, None]).T / (TWO_PI_LD ** ndim)      # (n, m): the backward sum
+    rng = np.random.default_rng(case['seed'])
+    tt, j, k = case['t'], case['j'], case['k']
+    impl = [('nft-mat', lambda: hcipy.NaiveFourierTransform(gi, go, precompute_matrices=True)), ('nft-fly', lambda: hcipy.NaiveFourierTransform(gi, go, precompute_matrices=False))]
+    if ndim == 1:
+        gis = hcipy.CartesianGrid(hcipy.SeparatedCoords([np.array(case['x'][0], dtype='float64')]), weights=np.array(case['w_in'], dtype='float64'))
+        gos = hcipy.CartesianGrid(hcipy.SeparatedCoords([np.array(case['u'][0], dtype='float64')]), weights=np.array(case['w_out'], dtype='float64'))
+        impl.append(('mft', lambda: hcipy.MatrixFourierTransform(gis, gos)))
+    res = {}
+    for name, mk in impl:
+        ft = mk()
+        gin, gout = ft.input_grid, ft.output_grid
+        # (a) a random tensor field: every component of the result is the defining sum of the same component of the input, in the C-order layout
+        X = (rng.integers(-8, 9, size=(T, n)) + 1j * rng.integers(-8, 9, size=(T, n))) / 4.0
+        Y = (rng.integers(-8, 9, size=(T, m)) + 1j * rng.integers(-8, 9, size=(T, m))) / 4.0
+        for direction, src, A, gsrc, nout in (('forward', X, Af, gin, m), ('backward', Y, Ab, gout, n)):
+            fld = hcipy.Field(src.reshape(tuple(ts) + (-1,)).copy(), gsrc)
+            got = np.asarray(getattr(ft, direction)(fld))
+            if got.shape != tuple(ts) + (nout,):
+                t.bad.append(('tie-mux-shape', '%s.%s of a field of tensor shape %s returned shape %s, expected %s' % (name, direction, ts, got.shape, tuple(ts) + (nout,))))
+                return t
+            ref = (A @ src.astype(CLD).T).T
+            e = maxerr(got.reshape(T, nout), ref)
+            if not e <= 1e-9 * max(float(np.abs(ref).max()), 1e-300):
+                t.bad.append(('tie-mux-' + direction, '%s.%s of a field of tensor shape %s differs from the defining sum taken component by component by %.3g' % (name, direction, ts, e)))
+        # (b) impulse in one component, for the model
+        if name.startswith('nft'):
+            a = np.zeros((T, n), dtype='complex128'); a[tt, j] = 1
+            b = np.zeros((T, m), dtype='complex128'); b[tt, k] = 1
+            res[('fwd', name[4:])] = np.asarray(ft.forward(hcipy.Field(a.reshape(tuple(ts) + (-1,)), gin))).reshape(-1)
+            res[('bwd', name[4:])] = np.asarray(ft.backward(hcipy.Field(b.reshape(tuple(ts) + (-1,)), gout))).reshape(-1)
+    lists = lambda ll: ';'.join(rat_list(l) for l in ll)
+    order = []
+    for direction, w, idx in (('fwd', case['w_in'], j), ('bwd', case['w_out'], k)):
+        for path in ('mat', 'fly'):
+            t.lines.append('C01 mux %s %s %s %s %s [%s] %d %d' % (direction, path, lists(case['x']), lists(case['u']), rat_list(w), ','.join(str(v) for v in ts), tt, idx))
+            order.append((direction, path))
+
+    def check(rs):
+        for key, r in zip(order, rs):
+            if not r.startswith('ok '):
+                return 'model mux %s: %s' % (key, r)
+            mval = eval_psums(r)
+            if key[0] == 'bwd':
+                mval = mval / (TWO_PI_LD ** ndim)
+            if mval.shape != res[key].shape:
+                return 'NaiveFourierTransform.%s of a field of tensor shape %s has %d raveled samples, the model %d' % (key[0], ts, res[key].size, mval.size)
+            e = maxerr(mval, res[key])
+            if not e <= 1e-9 * max(float(np.abs(mval).max()), 1e-300):
+                return 'NaiveFourierTransform.%s (%s path, tensor shape %s, impulse in component %d) differs from the model multiplexTensor by %.3g' % (key[0], key[1], ts, tt, e)
+        return None
+    t.check = check
+    t.counts = ['tie-mux:order=%d' % len(ts), 'tie-mux:components=%d' % T, 'tie-mux:%dD' % ndim] + (['tie-mux:mft'] if ndim == 1 else [])
+    t.sig = ('tie-mux', tuple(ts), ndim, n, m)
+    return t
+
+# ---------------------------------------------------------------------------------------------
+# MatrixFourierTransform switches: Model/MftState.lean (mftHistory)  <->  the attributes of one real object after every call of a history
+
+def gen_mftstate(rng):
+    ndim = int(rng.integers(1, 3))
+    steps = []
+    for _ in range(int(rng.integers(2, 7))):
+        r = rng.random()
+        steps.append({'dir': 'f' if rng.random() < 0.5 else 'b', 'dtype': 'complex64' if rng.random() < 0.45 else 'complex128',
+                      'tensor': [] if r < 0.5 else ([2] if r < 0.75 else ([3] if r < 0.85 else [2, 2]))})
+    return {'family': 'tie-mftstate', 'ndim': ndim, 'pre': bool(rng.integers(0, 2)), 'alloc': bool(rng.integers(0, 2)),
+            'n': [int(rng.integers(1, 5)) for _ in range(ndim)], 'm': [int(rng.integers(1, 5)) for _ in range(ndim)],
+            'uniform_w': bool(rng.integers(0, 2)), 'steps': steps, 'seed': int(rng.integers(0, 2 ** 31))}
+
+
+def tie_mftstate(case):
+    import hcipy
+    t = Tie()
+    ndim, pre, alloc = case['ndim'], bool(case['pre']), bool(case['alloc'])
+    rng = np.random.default_rng(case['seed'])
+    if case['uniform_w']:
+        xs = [np.arange(n) * 0.5 - 0.25 for n in case['n']]
+        us = [np.arange(m) * 0.75 - 0.5 for m in case['m']]
+    else:
+        xs = [np.sort(rng.integers(-16, 17, size=n) / 8.0) + np.arange(n) * 0.125 for n in case['n']]
+        us = [np.sort(rng.integers(-16, 17, size=m) / 8.0) + np.arange(m) * 0.125 for m in case['m']]
+    # explicit weights (a one-sample separated axis has no spacing to derive them from): all equal -> the scalar-weights branch, else the array branch
+    nin, nout = int(np.prod(case['n'])), int(np.prod(case['m']))
+    wi = np.full(nin, 0.5) if case['uniform_w'] else rng.integers(1, 9, size=nin) / 4.0
+    wo = np.full(nout, 0.25) if case['uniform_w'] else rng.integers(1, 9, size=nout) / 4.0
+    gi = hcipy.CartesianGrid(hcipy.SeparatedCoords(xs), weights=wi)
+    go = hcipy.CartesianGrid(hcipy.SeparatedCoords(us), weights=wo)
+    ft = hcipy.MatrixFourierTransform(gi, go, precompute_matrices=pre, allocate_intermediate=alloc)
+    mats = ('M',) if ndim == 1 else ('M1', 'M2')
+    log = []          # one record per component call
+
+    def snap():
+        Ms = [getattr(ft, a, None) for a in mats]
+        ia = getattr(ft, 'intermediate_array', None)
+        return {'mdt': getattr(ft, 'matrices_dtype', None), 'Ms': Ms, 'idt': getattr(ft, 'intermediate_dtype', None), 'ia': ia}
+
+    orig_compute, orig_remove = ft._compute_matrices, ft._remove_matrices
+
+    def spy_compute(dtype):
+        before = snap()
+        orig_compute(dtype)
+        after = snap()
+        log.append({'dtype': str(np.dtype(dtype)), 'rebuilt': any(a is not b for a, b in zip(after['Ms'], before['Ms'])), 'realloc': after['ia'] is not before['ia'],
+                    'use': after})
+
+    def spy_remove():
+        orig_remove()
+        if log and 'left' not in log[-1]:
+            log[-1]['left'] = snap()
+    ft._compute_matrices, ft._remove_matrices = spy_compute, spy_remove
+
+    def name(dt):
+        return 'none' if dt is None else {'complex64': 'c64', 'complex128': 'c128'}.get(str(np.dtype(dt)), str(dt))
+
+    def show(sn):
+        ms = {name(M.dtype) if M is not None else 'none' for M in sn['Ms']}
+        return '%s,%s,%s,%s' % (name(sn['mdt']), ms.pop() if len(ms) == 1 else 'mixed', name(sn['idt']), name(sn['ia'].dtype) if sn['ia'] is not None else 'none')
+
+    ds = []
+    for si, st in enumerate(case['steps']):
+        src = gi if st['dir'] == 'f' else go
+        shp = tuple(st['tensor']) + (src.size,)
+        a = ((rng.integers(-8, 9, size=shp) + 1j * rng.integers(-8, 9, size=shp)) / 4.0).astype(st['dtype'])
+        n0 = len(log)
+        try:
+            got = np.asarray((ft.forward if st['dir'] == 'f' else ft.backward)(hcipy.Field(a.copy(), src)))
+            fresh = hcipy.MatrixFourierTransform(gi, go, precompute_matrices=True, allocate_intermediate=True)
+            ref = np.asarray((fresh.forward if st['dir'] == 'f' else fresh.backward)(hcipy.Field(a.copy(), src)))
+        except Exception as e:  # noqa
+            t.bad.append(('tie-mftstate-raises', 'MatrixFourierTransform(precompute_matrices=%s, allocate_intermediate=%s), call %d of the history raised %s: %s' % (pre, alloc, si + 1, type(e).__name__, e)))
+            return t
+        T = int(np.prod(st['tensor'])) if st['tensor'] else 1
+        what = 'MatrixFourierTransform(%d-D, precompute_matrices=%s, allocate_intermediate=%s), call %d (%s, %s, tensor %s) of a history on one object' % (
+            ndim, pre, alloc, si + 1, 'forward' if st['dir'] == 'f' else 'backward', st['dtype'], st['tensor'])
+        if len(log) - n0 != T or any('left' not in r for r in log[n0:]):
+            t.bad.append(('tie-mftstate-observe', '%s: observed %d matrix preparations for %d tensor components' % (what, len(log) - n0, T)))
+            return t
+        # oracle (independent of the model): the result is the one of a fresh object; at use the matrices and (2-D) the buffer have the precision of the call;
+        # what the switches promise: nothing kept when off, nothing rebuilt for an unchanged precision when on
+        tol = 2e-4 if st['dtype'] == 'complex64' else 1e-9
+        e = maxerr(got, ref)
+        if got.shape != ref.shape or not e <= tol * max(float(np.abs(ref).max()), 1e-300):
+            t.bad.append(('tie-mftstate-result', '%s differs from the result of a fresh object by %.3g' % (what, e)))
+        for ci, r in enumerate(log[n0:]):
+            use, left = r['use'], r['left']
+            if any(M is None or str(M.dtype) != st['dtype'] for M in use['Ms']) or (ndim == 2 and (use['ia'] is None or str(use['ia'].dtype) != st['dtype'])):
+                t.bad.append(('tie-mftstate-at-use', '%s, component %d: at use the stored matrices / intermediate array are %s' % (what, ci, show(use))))
+            if (not pre and any(M is not None for M in left['Ms'])) or (pre and any(M is None for M in left['Ms'])):
+                t.bad.append(('tie-mftstate-switch', '%s, component %d: after the call the matrices are %s' % (what, ci, 'kept' if not pre else 'dropped')))
+            if ndim == 2 and ((not alloc and left['ia'] is not None) or (alloc and left['ia'] is None)):
+                t.bad.append(('tie-mftstate-switch', '%s, component %d: after the call the intermediate array is %s' % (what, ci, 'kept' if not alloc else 'dropped')))
+            prev = log[n0 + ci - 1] if n0 + ci > 0 else None
+            if pre and prev is not None and prev['dtype'] == r['dtype'] and r['rebuilt']:
+                t.bad.append(('tie-mftstate-switch', '%s, component %d: the precomputed matrices were rebuilt although the precision did not change' % (what, ci)))
+            ds.append(0 if st['dtype'] == 'complex64' else 1)
+    t.lines.append('C01 mftstate %d %d %d [%s]' % (int(pre), int(alloc), ndim, ','.join(str(d) for d in ds)))
+    def usable(r):
+        u = r['use']
+        return int(all(M is not None and str(M.dtype) == r['dtype'] for M in u['Ms']) and (ndim != 2 or (u['ia'] is not None and str(u['ia'].dtype) == r['dtype'])))
+    observed = ['%d%d/%s/%s/%d' % (int(r['rebuilt']), int(r['realloc']), show(r['use']), show(r['left']), usable(r)) for r in log]
+
+    def check(rs):
+        r = rs[0]
+        if not r.startswith('ok'):
+            return 'model mftstate: %s' % r
+        model = r.split()[1:]
+        if model != observed:
+            k = next((i for i, (a, b) in enumerate(zip(model, observed)) if a != b), min(len(model), len(observed)))
+            return ('MatrixFourierTransform(%d-D, precompute_matrices=%s, allocate_intermediate=%s): component call %d of the history %s — rebuilt/realloc / state at use / state left: '
+                    'implementation %s, model %s' % (ndim, pre, alloc, k + 1, ds, observed[k] if k < len(observed) else None, model[k] if k < len(model) else None))
+        return None
+    t.check = check
+    t.counts = ['tie-mftstate:%dD' % ndim, 'tie-mftstate:pre=%d,alloc=%d' % (pre, alloc), 'tie-mftstate:precision-changes=%d' % sum(1 for a, b in zip(ds, ds[1:]) if a != b)]
+    t.sig = ('tie-mftstate', ndim, pre, alloc, tuple(ds))
+    return t
+
+# ---------------------------------------------------------------------------------------------
 # get_fft_parameters ∘ FastFourierTransform: getFftParameters + plan (AxisReproduced, FftValuePre)  <->  the grid the re-built FFT reports
 
 def gen_roundtrip(rng):
@@ -1012,9 +1219,18 @@ def tie_select(case):
 
 GEN = {'tie-mft': (gen_mft, tie_mft), 'tie-czt': (gen_czt, tie_czt), 'tie-zoom': (gen_zoom, tie_zoom), 'tie-zoomaxes': (gen_zoomaxes, tie_zoomaxes),
        'tie-state': (gen_state, tie_state), 'tie-lit': (gen_lit, tie_lit), 'tie-select': (gen_select, tie_select),
-       'tie-roundtrip': (gen_roundtrip, tie_roundtrip), 'tie-fftw': (gen_fftw, tie_fftw), 'tie-nft': (gen_nft, tie_nft)}
+       'tie-roundtrip': (gen_roundtrip, tie_roundtrip), 'tie-fftw': (gen_fftw, tie_fftw), 'tie-nft': (gen_nft, tie_nft), 'tie-mux': (gen_mux, tie_mux), 'tie-mftstate': (gen_mftstate, tie_mftstate)}
 
 DIRECTED = [
+    {'family': 'tie-mftstate', 'ndim': 2, 'pre': True, 'alloc': True, 'n': [3, 2], 'm': [2, 3], 'uniform_w': True, 'seed': 1,
+     'steps': [{'dir': 'f', 'dtype': 'complex128', 'tensor': []}, {'dir': 'b', 'dtype': 'complex64', 'tensor': [2]}, {'dir': 'f', 'dtype': 'complex64', 'tensor': []},
+               {'dir': 'b', 'dtype': 'complex128', 'tensor': [2, 2]}]},
+    {'family': 'tie-mftstate', 'ndim': 2, 'pre': True, 'alloc': False, 'n': [2, 2], 'm': [3, 1], 'uniform_w': False, 'seed': 2,
+     'steps': [{'dir': 'b', 'dtype': 'complex64', 'tensor': []}, {'dir': 'f', 'dtype': 'complex128', 'tensor': [3]}, {'dir': 'f', 'dtype': 'complex64', 'tensor': []}]},
+    {'family': 'tie-mftstate', 'ndim': 1, 'pre': False, 'alloc': True, 'n': [4], 'm': [3], 'uniform_w': False, 'seed': 3,
+     'steps': [{'dir': 'f', 'dtype': 'complex64', 'tensor': [2]}, {'dir': 'b', 'dtype': 'complex128', 'tensor': []}]},
+    {'family': 'tie-mux', 'x': [[-0.5, 0.25, 1.0]], 'u': [[-1.0, 0.5]], 'w_in': [0.5, 0.25, 1.0], 'w_out': [1.0, 0.5], 'tensor': [2, 1, 3], 't': 5, 'j': 1, 'k': 0, 'seed': 1},
+    {'family': 'tie-mux', 'x': [[-0.5, 0.25], [0.0, 1.5]], 'u': [[-1.0, 0.5, 2.0], [0.25, 0.0, -0.75]], 'w_in': [0.5, 0.25], 'w_out': [1.0, 0.5, 0.125], 'tensor': [3], 't': 2, 'j': 0, 'k': 2, 'seed': 2},
     {'family': 'tie-zoomaxes', 'r': 1, 'ndim': 2, 'dir': 'fwd', 'seed': 1},        # D5: tensor field on a 2-D grid
     {'family': 'tie-zoomaxes', 'r': 0, 'ndim': 3, 'dir': 'fwd', 'seed': 2},        # D5: 3-D grid
     {'family': 'tie-zoomaxes', 'r': 2, 'ndim': 4, 'dir': 'bwd', 'seed': 3},
